@@ -101,7 +101,14 @@ static std::string run_case(const Case &c, std::string &msg, bool classify) {
         case SANITISE: {
             std::vector<bool> insane(t.regs.size());
             for (size_t ri = 0; ri < t.regs.size(); ri++) insane[ri] = !m.sane(t.regs[ri]);
+            // o.h != 0: during this run the (o.h/2)-th read of a callback-backed area reports unreadable content (INVALID or RANGE at the register's
+            // address): that register counts as not decodable and is reset like any other; nothing else changes
+            if (o.h) { OneShotRead &os = cb_read_oneshot(); os.countdown = (long)(o.h / 2); os.code = (o.h & 1) ? REG_ACCESS_INVALID : REG_ACCESS_RANGE; os.fired = false; }
             RegisterAccess a = register_sanitise(&lv.t);
+            if (o.h) {
+                OneShotRead &os = cb_read_oneshot(); os.countdown = -1;
+                if (os.fired) { for (size_t ri = 0; ri < t.regs.size(); ri++) if (os.address >= t.regs[ri].addr && os.address < t.regs[ri].end()) insane[ri] = true; vp::cls("sanitise-with-a-driver-that-reports-unreadable-content"); }
+            }
             if (a.code != REG_ACCESS_SUCCESS) { msg = vp::fmt("sanitise failed: %s at %u", code_name(a.code), a.address); return "sanitise:failed"; }
             for (size_t ri = 0; ri < t.regs.size(); ri++) { if (insane[ri]) { m.store(t.regs[ri], rm::canon(t.regs[ri].type, t.regs[ri].def)); reset = true; } else if (corrupted) kept = true; m.touched[ri] = false; }
             long d = lv.diff(m);
@@ -168,6 +175,9 @@ static rc::Gen<Case> genCase() {
                 o.h = nr && !r.chance(1, 12) ? (uint32_t)r.below(nr) : (uint32_t)(nr + r.below(2));
                 if (o.h < nr) { const RegD &reg = t.regs[o.h]; o.vtype = r.chance(1, 10) ? (int)r.below(rm::NTYPES) : reg.type;
                                 o.raw = o.kind == SET ? rm::canon(o.vtype, gen_for(r, reg)) : rm::canon(o.vtype, r.chance(1, 2) ? (1ull << r.below(rm::bits(reg.type))) : (r.next() & r.next())); }
+                break;
+            case SANITISE:
+                if (r.chance(1, 3)) o.h = 1 + (uint32_t)r.below(12);   // one read callback call of this run reports unreadable content
                 break;
             case BWRITE: case CORRUPT: {
                 o.addr = lo + (uint32_t)r.below(hi - lo);
